@@ -128,16 +128,6 @@ def run_case(cls, params, rec):
 			return "ok", (val[0], val[1])
 		return "ok", (val, None)
 
-	if params.get("prior_override_call"):
-		def plain_handler(module, grad_input, grad_output):
-			return grad_input
-		ov = {t: plain_handler for t in dls.ACT_TYPES}
-		k3 = {k_: v_ for k_, v_ in kw.items() if k_ != "return_references"}
-		if refmode == "tensor":
-			k3["references"] = kw["references"]
-		gen.call(deep_lift_shap, copy.deepcopy(model), X, args=args,
-			additional_nonlinear_ops=ov, **k3)
-		rec.count("prior_override_calls")
 	full = list(range(n))
 	st, base = run(full, n * ns + 3)
 	if st != "ok":
@@ -149,6 +139,18 @@ def run_case(cls, params, rec):
 			error=repr(base)[:300]), mech="C06/" + st)
 		return
 	b_attr, b_ref = base
+	# call history: after the baseline, a call that overrides the built-in
+	# rules; every later call must still reproduce the baseline
+	if params.get("prior_override_call"):
+		def plain_handler(module, grad_input, grad_output):
+			return grad_input
+		ov = {t: plain_handler for t in dls.ACT_TYPES}
+		k3 = {k_: v_ for k_, v_ in kw.items() if k_ != "return_references"}
+		if refmode == "tensor":
+			k3["references"] = kw["references"]
+		gen.call(deep_lift_shap, copy.deepcopy(model), X, args=args,
+			additional_nonlinear_ops=ov, **k3)
+		rec.count("prior_override_calls")
 
 	def compare(tag, idx, got, rows=None):
 		attr, ref = got
